@@ -282,16 +282,32 @@ func phPrelude(exec *kmipserver.BatchExecutor, parent context.Context, kind stri
 func phConcurrent(batches [][]string, prelude ...string) func() {
 	return func() {
 		resetPackages()
-		mw := false
+		mw, mw3 := false, false
 		var pre []string
 		for _, p := range prelude {
 			if p == "+mw" {
 				mw = true
+			} else if p == "+mw3" {
+				mw3 = true
 			} else {
 				pre = append(pre, p)
 			}
 		}
 		exec := phExecutor(true, mw)
+		if mw3 {
+			// three message middlewares and three batch-item middlewares registered by separate calls (the executor's slices
+			// then have spare capacity), each yielding so that two requests can overlap inside the chain
+			for i := 0; i < 3; i++ {
+				exec.Use(func(next kmipserver.Next, ctx context.Context, msg *kmip.RequestMessage) (*kmip.ResponseMessage, error) {
+					mc.Yield("ph.mw")
+					return next(ctx, msg)
+				})
+				exec.BatchItemUse(func(next kmipserver.BatchItemNext, ctx context.Context, bi *kmip.RequestBatchItem) (*kmip.ResponseBatchItem, error) {
+					mc.Yield("ph.imw")
+					return next(ctx, bi)
+				})
+			}
+		}
 		parent := context.WithValue(context.Background(), shutConnKey{}, "conn")
 		for _, p := range pre {
 			phPrelude(exec, parent, p)
@@ -380,6 +396,9 @@ func init() {
 	})
 	register("ph-conc-2-mw", func() *Scenario {
 		return &Scenario{Name: "ph-conc-2-mw", Doc: "two concurrent requests on an executor with pass-through middlewares, after one plain request", Body: phConcurrent([][]string{{"Sa", "R|G"}, {"R", "Sb|R"}}, "+mw", "ok")}
+	})
+	register("ph-conc-2-mw3", func() *Scenario {
+		return &Scenario{Name: "ph-conc-2-mw3", Doc: "two concurrent requests on an executor whose three message and three batch-item middlewares were registered one call at a time", Body: phConcurrent([][]string{{"Sa", "R|G"}, {"R", "Sb|R"}}, "+mw3")}
 	})
 	register("ph-seq-exhaustive-x", func() *Scenario {
 		return &Scenario{Name: "ph-seq-exhaustive-x", Doc: "all batches of <=4 items x <=2 actions (+panic items), Continue/Stop, each followed by a probe request", Body: phSeqExhaustive(4, 2), MaxSteps: 200000000}
